@@ -19,7 +19,7 @@ EXPLANATION = (
     '(C07.R2 + C07.R3 re-evaluated), without which nothing is refreshed.'
 )
 ASSUMPTIONS = ["asyncio.timeout/reschedule semantics as documented"]
-FLOORS = {"C14.R1": 8, "C14.R2": 3, "C14.R3": 8, "C14.R4": 4, "C14.R5": 1, "C14.R6": 1}
+FLOORS = {"C14.R1": 8, "C14.R2": 3, "C14.R3": 8, "C14.R4": 4, "C14.R5": 1, "C14.R6": 1, "C14.R7": 1}
 
 
 def run(ctx):
@@ -32,6 +32,10 @@ def run(ctx):
 
     from . import c01
 
+    from . import c08
+
+    reuse(ctx, "C14.R7", [c08.r5], "the reconnection a reset promises is not cancelled from a connection callback: only shutdown() stops the heartbeat tasks, one of which is the task running the reset (C08.R5)",
+          keep=lambda o: "who-may-call" in o.construct or o.verdict != "HOLDS")
     reuse(ctx, "C14.R6", [c01.r3], "the refresh requests queued on reconnection are written: the queue is drained after every connect and the drain can always start (C01.R3)")
     reuse(ctx, "C14.R5", [c07.r2, c07.r3], "after a connection loss the client reconnects (C07.R2 reset, C07.R3 retry), which is what triggers the refresh")
 
